@@ -9,6 +9,7 @@ import (
 	"io/ioutil"
 	"os"
 	"os/exec"
+	"os/signal"
 	"path/filepath"
 	"runtime"
 	"runtime/debug"
@@ -16,6 +17,7 @@ import (
 	"strconv"
 	"strings"
 	"sync"
+	"syscall"
 	"time"
 )
 
@@ -161,6 +163,7 @@ type Spec struct {
 	NumRuns     func(tier string) int
 	Run         func(c *Ctx)                         // one seeded run
 	Replay      func(c *Ctx, trace json.RawMessage)  // re-execute a stored trace
+	ReplayAttempts int                               // extra fresh-process replay attempts before a violation counts as not reproducible
 	Workers     int                                  // 0 = NumCPU
 	RunTimeout  time.Duration                        // whole-shard watchdog (harness), default by tier
 	Extra       func(tier string, ev map[string]interface{}) // extra evidence keys
@@ -366,7 +369,54 @@ func startMonitor(finish func(c *Ctx, h HangInfo)) {
 // parent restarts a fresh worker behind it.
 func (c *Ctx) Hang() { c.st.AbortedAt = c.Run }
 
+var (
+	childMu  sync.Mutex
+	children = map[int]bool{} // pids of worker process groups
+)
+
+func startChild(cmd *exec.Cmd) error {
+	cmd.SysProcAttr = &syscall.SysProcAttr{Setpgid: true}
+	if err := cmd.Start(); err != nil {
+		return err
+	}
+	childMu.Lock()
+	children[cmd.Process.Pid] = true
+	childMu.Unlock()
+	return nil
+}
+
+func killChild(cmd *exec.Cmd) {
+	if cmd.Process != nil {
+		syscall.Kill(-cmd.Process.Pid, syscall.SIGKILL)
+	}
+}
+
+func doneChild(cmd *exec.Cmd) {
+	if cmd.Process != nil {
+		childMu.Lock()
+		delete(children, cmd.Process.Pid)
+		childMu.Unlock()
+		// the worker is gone; make sure nothing it started outlives it
+		syscall.Kill(-cmd.Process.Pid, syscall.SIGKILL)
+	}
+}
+
+func installSignalHandler() {
+	ch := make(chan os.Signal, 1)
+	signal.Notify(ch, syscall.SIGINT, syscall.SIGTERM, syscall.SIGHUP)
+	go func() {
+		<-ch
+		childMu.Lock()
+		for pid := range children {
+			syscall.Kill(-pid, syscall.SIGKILL)
+		}
+		childMu.Unlock()
+		os.Exit(2)
+	}()
+}
+
 func doMain(spec *Spec, tier string, seed uint64, nruns int) int {
+	installSignalHandler()
 	t0 := time.Now()
 	fmt.Printf("VERIF_SEED=%d property=%s tier=%s engine=%s\n", seed, spec.Property, tier, spec.Engine)
 	w := spec.Workers
@@ -424,7 +474,7 @@ func doMain(spec *Spec, tier string, seed uint64, nruns int) int {
 				cmd.Stderr = os.Stderr
 				cmd.Env = append(os.Environ(), "VERIF_SEED="+strconv.FormatUint(seed, 10), "GOMAXPROCS="+gmp)
 				done := make(chan error, 1)
-				if err := cmd.Start(); err != nil {
+				if err := startChild(cmd); err != nil {
 					ch <- res{nil, err}
 					return
 				}
@@ -433,10 +483,11 @@ func doMain(spec *Spec, tier string, seed uint64, nruns int) int {
 				select {
 				case werr = <-done:
 				case <-time.After(timeout):
-					cmd.Process.Kill()
+					killChild(cmd)
 					<-done
 					werr = fmt.Errorf("harness watchdog: worker %d exceeded %v", k, timeout)
 				}
+				doneChild(cmd)
 				b, rerr := ioutil.ReadFile(out)
 				if rerr != nil {
 					// the worker died without a result: attribute the crash to a run
@@ -533,10 +584,14 @@ func doMain(spec *Spec, tier string, seed uint64, nruns int) int {
 			return 2
 		}
 		// confirm in a fresh process
-		cmd := exec.Command(self, "-replay", path)
-		cmd.Env = append(os.Environ(), "VERIF_QUIET_REPLAY=1")
-		outb, _ := cmd.CombinedOutput()
-		code := cmd.ProcessState.ExitCode()
+		var outb []byte
+		code := 0
+		for attempt := 0; attempt < spec.ReplayAttempts+1 && code != 1; attempt++ {
+			cmd := exec.Command(self, "-replay", path)
+			cmd.Env = append(os.Environ(), "VERIF_QUIET_REPLAY=1")
+			outb, _ = cmd.CombinedOutput()
+			code = cmd.ProcessState.ExitCode()
+		}
 		if code != 1 {
 			fmt.Fprintf(os.Stderr, "HARNESS-ERROR property=%s violation (class %s, key %s) did not reproduce from %s in a fresh process (exit %d): %s\n%s\n", spec.Property, v.Class, v.Key, path, code, v.Detail, string(outb))
 			return 2
@@ -564,7 +619,7 @@ func rerunSingle(self string, spec *Spec, tier string, seed uint64, k, w, run in
 	cmd.Stderr = &buf
 	cmd.Env = append(os.Environ(), "VERIF_SEED="+strconv.FormatUint(seed, 10), "GOMAXPROCS="+gmp)
 	done := make(chan error, 1)
-	if err := cmd.Start(); err != nil {
+	if err := startChild(cmd); err != nil {
 		return err.Error(), nil
 	}
 	go func() { done <- cmd.Wait() }()
@@ -572,10 +627,11 @@ func rerunSingle(self string, spec *Spec, tier string, seed uint64, k, w, run in
 	select {
 	case werr = <-done:
 	case <-time.After(20 * time.Minute):
-		cmd.Process.Kill()
+		killChild(cmd)
 		<-done
 		werr = fmt.Errorf("did not finish within 20 minutes")
 	}
+	doneChild(cmd)
 	defer os.Remove(out + ".progress")
 	if b, err := ioutil.ReadFile(out); err == nil {
 		st := newStats()
